@@ -248,14 +248,9 @@ class GraphicalModel:
             used.add(col)
             marg = self.project(proj + (col,)).datavector(flatten=False)
 
-            def foo(group):
-                idx = group.name
-                vals = synthetic_col(marg[idx], group.shape[0])
-                group[col] = vals
-                return group
-
             if len(proj) >= 1:
-                df = df.groupby(list(proj), group_keys=False).apply(foo)
+                for idx, group in df.groupby(list(proj)):
+                    df.loc[group.index, col] = synthetic_col(marg[idx], group.shape[0])
             else:
                 df[col] = synthetic_col(marg, df.shape[0])
 
